@@ -397,6 +397,16 @@ pub fn run_stream(mut p: stream::Parser, wire_bytes: &[u8], mut pos: usize, ch: 
                             Ok(_) => vfail!("c03-not-sticky", "parse succeeded after failing with {k:?}"),
                         }
                     };
+                    // "reported again by every later call": also with a caller buffer, empty or not
+                    if p.stream_buffer().is_empty() {
+                        for cap in [0usize, 3] {
+                            let mut d = vec![0u8; cap];
+                            match p.parse(0, Some(&mut d[..])) {
+                                Err(e2) => vensure!(err_kind(&e2) == k, "c03-not-sticky", "parse into a {cap}-byte buffer failed with {:?} after failing with {k:?}", err_kind(&e2)),
+                                Ok(_) => vfail!("c03-not-sticky", "parse into a {cap}-byte caller buffer succeeded after failing with {k:?}"),
+                            }
+                        }
+                    }
                     vensure!(k2 == k, "c03-not-sticky", "parse failed with {k2:?} after failing with {k:?}");
                     vensure!(p.output_buffer().len() == olen, "c03-not-sticky", "output_buffer grew after a fatal error");
                 }
